@@ -113,7 +113,14 @@ class SdkDriver:
                     n = Template(n["tmpl"])
                 else:
                     n = self.tmpl_values[n["tmpl"]]
-            getattr(self.qubits[st["q"]], "rot_" + st["axis"].upper())(n=n, d=st["d"])
+            d = st["d"]
+            if isinstance(d, dict):      # the builder also takes a template for the denominator
+                if self.tmpl_mode == "template":
+                    from netqasm.lang.operand import Template
+                    d = Template(d["tmpl"])
+                else:
+                    d = self.tmpl_values[d["tmpl"]]
+            getattr(self.qubits[st["q"]], "rot_" + st["axis"].upper())(n=n, d=d)
         elif op == "cnot":
             self.qubits[st["c"]].cnot(self.qubits[st["t"]])
         elif op == "meas":
